@@ -4,6 +4,9 @@ import json, os
 V = "/verif"
 CLAIMED = {
  # id: (clause text, technique, level_note, design_ref)
+ "C18": ("Decides, exhaustively over a finite abstract domain, that the ledger package's code implements an overlayed map for every operation sequence on one key: the SSA of the ledger methods and all memItems helpers is evaluated by an abstract interpreter (one tracked key; items as value tags; containers as has-key/tag; removed-key list as occurrence count; tree as absent/tag) and every sequence of Set/Get/Del on both overlays, Read and Commit is explored to closure against the reference model (reads, commit net effect, overlay clearing, mempool isolation from consensus). Plus: the IAVL tree is mutated only in Commit (removals before updates), tree iterators do not consult overlays, no version is ever deleted, ImmutableLedgerAt(n) loads exactly n into a fresh tree with fresh overlays. Reopen and Cancel* are not covered.",
+         "abstract interpretation of the package's SSA over a finite one-key domain, explored to closure against a reference model + who-may-call / ordering rules on the IAVL API",
+         "trusted: go/ssa, iavl, the per-key independence of Go maps and list membership; the interpreter answers 'undecided' (check fails) if the code leaves the abstract domain", "DESIGN.md §3 C18"),
  "C19": ("Decides the structural clause of read-only, height-exact queries for every request at once: nothing reachable from Query calls an overlay method of a live ledger (tree reads and ImmutableLedgerAt only), reaches a durable-write API of tm-db/iavl/go-ethereum, writes in-memory controller state or touches the live EVM state; the vm_call state is the scratch wrapper of ImmutableStateAt with the immutable account handler; every handler opens its immutable ledger / state at a height data-dependent on the request height and reads the committed tree; height 0 maps to the last committed height; dispatch tables of RigoApp.Query and the controllers agree; no tree version is ever deleted or overwritten in the module. It does not decide the returned bytes.",
          "call-graph reachability with who-may-call tables (durable-write APIs, ledger overlay vocabulary) + data-dependence of the height argument + sibling agreement of dispatch tables",
          "trusted: go/ssa, call graph; on the query path the StateDBWrapper's IAccountHandler is resolved to ImmuAcctCtrler, justified by the checked construction in ImmutableStateAt (Q-1e)", "DESIGN.md §3 C19"),
